@@ -2231,6 +2231,11 @@ func (self *LockDB) Lock(serverProtocol ServerProtocol, command *protocol.LockCo
 
 	lock := lockManager.GetOrNewLock(serverProtocol, command)
 	if (!waited || (command.TimeoutFlag&protocol.TIMEOUT_FLAG_RCOUNT_IS_PRIORITY != 0 && self.doCheckLockWaitPriority(lockManager, lock))) && self.doLock(lockManager, lock) {
+		if lockManager.locked == 0 && !lockManager.waited && lockManager.currentData != nil {
+			// the key was free: the value of an earlier hold, kept only because a timer wheel
+			// entry still references the key's manager, must not reach this hold
+			lockManager.currentData = nil
+		}
 		requireWakeup := lockManager.waited && lock.locked == 0
 		if command.Expried > 0 {
 			lockManager.AddLock(lock)
